@@ -434,7 +434,7 @@ def subject_evidence(rule):
     def f(agg, samples, distinct, tier):
         return cov(agg.get('histories', 0), distinct, rule, samples,
                    observed=pick(agg, 'histories', 'ops', 'notifies', 'nestedNotifies', 'calls', 'inRoundActions', 'staleRejected', 'selfUnsub',
-                                 'unsubOther', 'lazyRemovals', 'handleMoves', 'nontrivialCases', 'maxDepth', 'tokensDestroyed', 'countdownObservers', 'callbacksThatThrew', 'longLifeRuns', 'longLifeCycles', 'burstObservers'),
+                                 'unsubOther', 'lazyRemovals', 'handleMoves', 'nontrivialCases', 'maxDepth', 'tokensDestroyed', 'countdownObservers', 'callbacksThatThrew', 'chainedSubjectRuns', 'longLifeRuns', 'longLifeCycles', 'burstObservers'),
                    operations=agg.get('opCount', {}), signatures=agg.get('signatures', {}), in_round_actions=agg.get('inRoundActionKinds', {}))
     return f
 
@@ -526,7 +526,7 @@ SPECS['C16'] = dict(
         '<double> with a 0.5 tolerance comparator, <float> and <std::string>; a model value of the same type with the same Eq decides per operation whether every live subscriber must be called '
         'exactly once with the post-operation value (by reference to the held value) or nobody; value() is compared bit for bit, an Eq-equal assignment must leave it untouched, and with default '
         'equality every recording subscriber must hold value(). Values are kept where the arithmetic itself is defined. non-trivial = history with a value-changing operation; distinct = distinct histories',
-        samples, observed=pick(agg, 'histories', 'ops', 'changingOps', 'nonChangingOps', 'subscriberCalls', 'subscribes', 'unsubscribes', 'eqEqualButDifferentAssignments', 'observablesMovedBeforeUse', 'reentrantClampHistories', 'reentrantCorrections', 'longLifeCycles', 'throwingSubscriberRuns', 'unsubscribeInCallbackRuns', 'nontrivialCases'),
+        samples, observed=pick(agg, 'histories', 'ops', 'changingOps', 'nonChangingOps', 'subscriberCalls', 'subscribes', 'unsubscribes', 'eqEqualButDifferentAssignments', 'observablesMovedBeforeUse', 'reentrantClampHistories', 'reentrantCorrections', 'longLifeCycles', 'throwingSubscriberRuns', 'unsubscribeInCallbackRuns', 'chainedObservableRuns', 'nestedOperationRuns', 'nontrivialCases'),
         operations=agg.get('opCount', {}), types=agg.get('types', {})),
     assumptions=['no signed overflow, no integer division by zero, no NaN: UBSan then speaks only about tulz', 'the Observable is not moved while subscriptions exist'],
     manifest=dict(engine='h_observable', text='Lock-step model of the held value with the same equality; the call log of recording subscribers is compared after every operation over seeded histories for '
